@@ -60,3 +60,13 @@ class Construction:
       self._init_field_value(n, "generic", strings[i], errmsginfo = strings)
       self.positional_fieldnames.append(n)
       self._datatype[n] = "generic"
+
+  def clone(self):
+    """Copy of the line (see gfapy.Line.clone()).
+
+    The names of the positional fields are defined by each instance
+    of CustomRecord, and are copied too.
+    """
+    cpy = super().clone()
+    cpy._positional_fieldnames = list(self._positional_fieldnames)
+    return cpy
